@@ -17,6 +17,16 @@
 //!            (same tree enumeration as "sweep") for each of AverageF64 over f64, Sum<f64>,
 //!            Min<OrdF64>, Max<OrdF64>.  A float outcome is its CLASS "nan" | "pinf" | "ninf", or
 //!            {"f": hex bits} when finite (null = finish panicked).
+//!   "big":   large groups, compactly described.  in = [cid, k, den, ty, expr]; expr as in "expr" plus
+//!            [5, g] build_from_group over generated values | [6, g] create + add_input of each
+//!            generated value | [7, g, psize, mode, nest] the generated values cut into consecutive
+//!            chunks of psize values, chunk i a leaf (mode 0 add / 1 build / 2 even chunks build),
+//!            leaves merged left-nested (nest 0) / right-nested (1) / balanced (2);
+//!            g = [start, n, a, b, m, off] stands for ((a*i + b) mod m) + off, i = start..start+n-1.
+//!            ty = element type 0: i64 (AverageF64: f64 = v/den), 1: u64 (AverageF64: u32),
+//!            2: i32.  The expression is evaluated TWICE on the same combiner instance;
+//!            out = [first, second], each an outcome as in "expr" except that DistinctSet / TopK
+//!            outputs are digests [len, polynomial hash mod 2^61-1] (DistinctSet sorted first).
 //! outcome: integer | null (finish panicked) | {"f": hex} | sorted int array (DistinctSet) |
 //!          int array as returned (TopK).  AverageF64 values are v/den (den a power of two).
 use ibv::{Emitter, SplitMix64, Tier, drive};
@@ -196,7 +206,87 @@ fn eval_expr<V: Clone + Send + Sync + 'static, A, O, C: LiftableCombiner<V, A, O
             }
             a
         }
+        5 => {
+            let vs: Vec<V> = gen_vals(&e[1]).into_iter().map(conv).collect();
+            c.build_from_group(&vs)
+        }
+        6 => {
+            let mut a = c.create();
+            for x in gen_vals(&e[1]) {
+                c.add_input(&mut a, conv(x));
+            }
+            a
+        }
+        7 => {
+            let vs: Vec<V> = gen_vals(&e[1]).into_iter().map(conv).collect();
+            let psize = (e[2].as_u64().unwrap() as usize).max(1);
+            let mode = e[3].as_u64().unwrap() as usize;
+            let nest = e[4].as_u64().unwrap();
+            let mut leaves: Vec<A> =
+                vs.chunks(psize).enumerate().map(|(i, p)| leaf(c, lifted_of(mode, i), p)).collect();
+            if leaves.is_empty() {
+                return c.create();
+            }
+            match nest {
+                0 => {
+                    let mut it = leaves.drain(..);
+                    let mut acc = it.next().unwrap();
+                    for a in it {
+                        c.merge(&mut acc, a);
+                    }
+                    acc
+                }
+                1 => {
+                    let mut acc = leaves.pop().unwrap();
+                    while let Some(mut a) = leaves.pop() {
+                        c.merge(&mut a, acc);
+                        acc = a;
+                    }
+                    acc
+                }
+                _ => balanced(c, leaves),
+            }
+        }
         _ => panic!("bad expr tag"),
+    }
+}
+
+/// balanced merge tree: the first ceil(n/2) leaves against the rest, recursively
+fn balanced<V: Clone + Send + Sync + 'static, A, O, C: LiftableCombiner<V, A, O>>(c: &C, mut leaves: Vec<A>) -> A {
+    if leaves.len() == 1 {
+        return leaves.pop().unwrap();
+    }
+    let h = (leaves.len() + 1) / 2;
+    let right = leaves.split_off(h);
+    let mut l = balanced(c, leaves);
+    let r = balanced(c, right);
+    c.merge(&mut l, r);
+    l
+}
+
+/// g = [start, n, a, b, m, off] -> ((a*i + b) mod m) + off for i = start..start+n-1
+fn gen_vals(g: &Value) -> Vec<i64> {
+    let p = ints(g);
+    let (start, n, a, b, m, off) = (p[0], p[1], p[2], p[3], p[4], p[5]);
+    assert!(m >= 1 && (0..=200_000).contains(&n) && start >= 0);
+    (start..start + n)
+        .map(|i| ((a as i128 * i as i128 + b as i128).rem_euclid(m as i128) + off as i128) as i64)
+        .collect()
+}
+
+/// [len, polynomial hash mod 2^61-1] of a list output
+fn digest(v: &Value) -> Value {
+    match v.as_array() {
+        Some(a) if a.iter().all(Value::is_i64) || a.iter().all(Value::is_u64) => {
+            const P: i128 = (1i128 << 61) - 1;
+            let mut h: i128 = 0;
+            for x in a {
+                let x = x.as_i64().map(|x| x as i128).unwrap_or_else(|| x.as_u64().unwrap() as i128);
+                h = (h * 1_000_003 + x.rem_euclid(P)) % P;
+            }
+            json!([a.len(), h as i64])
+        }
+        _ => v.clone(),
     }
 }
 
@@ -243,6 +333,17 @@ mod mutants {
             }
         }
         fn merge(&self, acc: &mut Heap, other: Heap) {
+            if self.m == "topk_merge_big_other" && other.len() >= 100 && acc.len() == self.k {
+                // "a full accumulator only needs the other side's best 100"
+                let mut v: Vec<i64> = other.into_iter().map(|Reverse(x)| x).collect();
+                v.sort_unstable();
+                let keep: Vec<i64> = v.into_iter().rev().take(100).collect();
+                for x in keep {
+                    acc.push(Reverse(x));
+                    acc.pop();
+                }
+                return;
+            }
             let fits = match self.m {
                 "topk_fast_plus1" => acc.len() + other.len() <= self.k + 1,
                 "topk_fast_only_acc" => acc.len() <= self.k,
@@ -305,6 +406,13 @@ mod mutants {
     impl LiftableCombiner<i64, Heap, Vec<i64>> for MTopK {
         fn build_from_group(&self, values: &[i64]) -> Heap {
             let mut heap: Heap = BinaryHeap::new();
+            if self.m == "topk_build_big_dedup" && values.len() >= 256 {
+                // "order the group once" for big groups, with a dedup that does not belong there
+                let mut v = values.to_vec();
+                v.sort_unstable();
+                v.dedup();
+                return v.into_iter().rev().take(self.k).map(Reverse).collect();
+            }
             for v in values.iter().cloned() {
                 heap.push(Reverse(v));
                 if self.m != "topk_build_unbounded" && heap.len() > self.k {
@@ -358,6 +466,10 @@ mod mutants {
             if self.0 == "min_build_first" {
                 return values.first().copied();
             }
+            if self.0 == "min_build_chunks" && values.len() >= 128 {
+                // chunked scan of a big group that forgets the remainder
+                return values.chunks_exact(16).map(|c| *c.iter().min().unwrap()).min();
+            }
             values.iter().cloned().min()
         }
     }
@@ -391,7 +503,48 @@ mod mutants {
                 let kept: Vec<f64> = values.iter().copied().filter(|v| v.is_finite()).collect();
                 return (kept.iter().sum(), kept.len() as u64);
             }
+            if self.0 == "avg_build_f32" && values.len() >= 512 {
+                // big groups summed in single precision
+                let s: f32 = values.iter().map(|v| *v as f32).sum();
+                return (s as f64, values.len() as u64);
+            }
             (values.iter().sum(), values.len() as u64)
+        }
+    }
+
+    pub struct MSum(pub &'static str);
+    impl CombineFn<i64, i64, i64> for MSum {
+        fn create(&self) -> i64 {
+            0
+        }
+        fn add_input(&self, acc: &mut i64, v: i64) {
+            *acc += v;
+        }
+        fn merge(&self, acc: &mut i64, other: i64) {
+            *acc += other;
+        }
+        fn finish(&self, acc: i64) -> i64 {
+            acc
+        }
+    }
+    impl LiftableCombiner<i64, i64, i64> for MSum {
+        fn build_from_group(&self, values: &[i64]) -> i64 {
+            if self.0 == "sum_build_lanes" && values.len() >= 64 {
+                // 8 independent lanes; the remainder of chunks_exact is never added
+                let mut lanes = [0i64; 8];
+                for chunk in values.chunks_exact(8) {
+                    for (l, v) in lanes.iter_mut().zip(chunk) {
+                        *l += *v;
+                    }
+                }
+                return lanes.iter().sum();
+            }
+            if self.0 == "sum_build_pairwise" && values.len() > 1024 {
+                // pairwise summation of a big group with an off-by-one split
+                let h = values.len() / 2;
+                return self.build_from_group(&values[..h]) + self.build_from_group(&values[h + 1..]);
+            }
+            values.iter().sum()
         }
     }
 
@@ -417,6 +570,10 @@ mod mutants {
     }
     impl LiftableCombiner<i64, HashSet<i64>, Vec<i64>> for MDistinct {
         fn build_from_group(&self, values: &[i64]) -> HashSet<i64> {
+            if self.0 == "distinct_build_cap" {
+                // pre-sized table that silently stops at its capacity
+                return values.iter().take(1024).cloned().collect();
+            }
             values.iter().cloned().collect()
         }
     }
@@ -438,6 +595,9 @@ mod mutants {
     }
     impl LiftableCombiner<i64, u64, u64> for MCount {
         fn build_from_group(&self, values: &[i64]) -> u64 {
+            if self.0 == "count_build_u16" {
+                return values.len() as u16 as u64;
+            }
             if self.0 == "count_build_distinct" {
                 return values.iter().collect::<HashSet<_>>().len() as u64;
             }
@@ -458,6 +618,7 @@ macro_rules! with_combiner {
         let m = mutant();
         match $cid {
             0 if m.starts_with("count_") => $f(&mutants::MCount(m), $($arg,)* &id, &enc_u64),
+            1 if m.starts_with("sum_") => $f(&mutants::MSum(m), $($arg,)* &id, &enc_int),
             2 if m.starts_with("min_") => $f(&mutants::MMin(m), $($arg,)* &id, &enc_int),
             4 if m.starts_with("avg_") => $f(&mutants::MAvg(m), $($arg,)* &move |x: i64| (x as f64) / den, &hexf),
             6 if m.starts_with("distinct_") => $f(&mutants::MDistinct(m), $($arg,)* &id, &enc_sorted),
@@ -497,8 +658,46 @@ fn expr_values(e: &Value, out: &mut Vec<i64>) {
             expr_values(&e[1], out);
             expr_values(&e[2], out);
         }
-        _ => out.extend(ints(&e[1])),
+        3 | 4 => out.extend(ints(&e[1])),
+        _ => out.extend(gen_vals(&e[1])),
     }
+}
+
+/// evaluate the expression twice on the SAME combiner instance
+fn big_out<V: Clone + Send + Sync + 'static, A, O, C: LiftableCombiner<V, A, O>>(
+    c: &C,
+    e: &Value,
+    conv: &dyn Fn(i64) -> V,
+    enc: &dyn Fn(O) -> Value,
+) -> Value {
+    let o1 = digest(&expr_out(c, e, conv, enc));
+    let o2 = digest(&expr_out(c, e, conv, enc));
+    json!([o1, o2])
+}
+
+/// the built-ins instantiated at another element type (big cases with ty = 1, 2)
+macro_rules! with_typed {
+    ($T:ty, $A:ty, $cid:expr, $k:expr, $f:ident, $($arg:expr),*) => {{
+        let conv = |x: i64| x as $T;
+        let enc1 = |o: $T| json!(o);
+        let encc = |o: u64| json!(o);
+        let encv = |o: Vec<$T>| json!(o);
+        let encs = |mut o: Vec<$T>| {
+            o.sort_unstable();
+            json!(o)
+        };
+        match $cid {
+            0 => $f(&Count, $($arg,)* &conv, &encc),
+            1 => $f(&Sum::<$T>::new(), $($arg,)* &conv, &enc1),
+            2 => $f(&Min::<$T>::new(), $($arg,)* &conv, &enc1),
+            3 => $f(&Max::<$T>::new(), $($arg,)* &conv, &enc1),
+            4 => $f(&AverageF64, $($arg,)* &|x: i64| x as $A, &hexf),
+            5 => $f(&DistinctCount::<$T>::new(), $($arg,)* &conv, &encc),
+            6 => $f(&DistinctSet::<$T>::new(), $($arg,)* &conv, &encs),
+            7 => $f(&TopK::<$T>::new($k), $($arg,)* &conv, &encv),
+            _ => panic!("bad combiner id"),
+        }
+    }};
 }
 
 fn run(kind: &str, input: &Value) -> Value {
@@ -555,6 +754,32 @@ fn run(kind: &str, input: &Value) -> Value {
             }
             with_combiner!(cid, k, den, expr_out, &input[3])
         }
+        "big" => {
+            let cid = input[0].as_i64().unwrap();
+            let k = input[1].as_u64().unwrap() as usize;
+            let den = input[2].as_i64().unwrap();
+            let ty = input[3].as_i64().unwrap();
+            let e = &input[4];
+            if cid == 8 {
+                let c = KMVApproxDistinctCount::<i64>::new(k);
+                let mut vals = Vec::new();
+                expr_values(e, &mut vals);
+                let fold = json!([4, vals]);
+                let mut outs = Vec::new();
+                for _ in 0..2 {
+                    let t = expr_out(&c, e, &id, &hexf);
+                    let f = expr_out(&c, &fold, &id, &hexf);
+                    outs.push(json!([t, f]));
+                }
+                return Value::Array(outs);
+            }
+            match ty {
+                0 => with_combiner!(cid, k, den, big_out, e),
+                1 => with_typed!(u64, u32, cid, k, big_out, e),
+                2 => with_typed!(i32, i32, cid, k, big_out, e),
+                _ => json!(["bad-type"]),
+            }
+        }
         _ => json!(["bad-kind"]),
     }
 }
@@ -591,7 +816,12 @@ fn expr_stats(e: &Value) -> (usize, bool) {
             let (b, mb) = expr_stats(&e[2]);
             (a + b, ma || mb || (a > 0 && b > 0))
         }
-        _ => (e[1].as_array().unwrap().len(), false),
+        3 | 4 => (e[1].as_array().unwrap().len(), false),
+        5 | 6 => (e[1][1].as_u64().unwrap() as usize, false),
+        _ => {
+            let n = e[1][1].as_u64().unwrap() as usize;
+            (n, n > (e[2].as_u64().unwrap() as usize).max(1))
+        }
     }
 }
 
@@ -792,6 +1022,9 @@ fn generate(seed: u64, tier: Tier, em: &mut Emitter) {
         let (nv, mg) = expr_stats(&e);
         queue.push(("expr", json!([cid, k, den, e]), nv >= 2 && mg, vec!["random"]));
     }
+    // 4. big groups (compact descriptions), every combiner, both entry styles
+    big_cases(seed, tier, &mut queue);
+
     let n = queue.len();
     let mut stride = 7919 % n.max(1);
     while stride == 0 || gcd(stride, n) != 1 {
@@ -801,6 +1034,160 @@ fn generate(seed: u64, tier: Tier, em: &mut Emitter) {
     for i in 0..n {
         let (kind, input, nt, tags) = slots[(i * stride) % n].take().unwrap();
         em.case(kind, input, nt, &tags);
+    }
+}
+
+
+// ---------------------------------------------------------------- big groups
+/// group sizes: around every power of two up to 4096, every length 60..=80 (all residues mod 8
+/// and mod 16 just above 64), 3 * 2^j, round numbers, ~5000; `huge` = sizes past 4097
+fn big_sizes(tier: Tier) -> (Vec<i64>, Vec<i64>) {
+    let mut v: Vec<i64> = vec![0, 1];
+    for j in 1..=12 {
+        let p = 1i64 << j;
+        v.extend([p - 1, p, p + 1]);
+    }
+    v.extend(60..=80);
+    v.extend([12, 20, 24, 48, 96, 100, 192, 200, 384, 500, 768, 1000, 1001, 1536, 2000, 3000, 3072]);
+    v.extend([4999, 5000, 5001]);
+    if tier == Tier::Thorough {
+        v.extend(0..=300);
+        v.extend([6000, 6144, 7777]);
+    }
+    v.sort_unstable();
+    v.dedup();
+    let mut huge: Vec<i64> = vec![8191, 8192, 8193, 10000, 16384, 16385, 32767, 32769, 65535, 65536, 65537, 100000];
+    if tier == Tier::Thorough {
+        huge.extend([12288, 20000, 50000, 131072, 131073]);
+    }
+    (v, huge)
+}
+
+/// value patterns: (a, b, m, off, upper bound on the number of distinct values)
+fn big_pattern(rng: &mut SplitMix64, n: i64, which: u64) -> (i64, i64, i64, i64, i64) {
+    match which {
+        0 => (1, 0, 1 << 32, *rng.pick(&[0i64, -7, 1000]), n),            // ascending
+        1 => (-1, n + 5, 1 << 32, *rng.pick(&[0i64, -3]), n),              // descending
+        2 => (0, 7, 100, *rng.pick(&[0i64, -7, -9]), 1),                   // constant
+        3 => {
+            let m = *rng.pick(&[2i64, 3, 5, 10]);
+            (1, 0, m, *rng.pick(&[0i64, -1]), m)                           // few distinct, periodic
+        }
+        4 => (7919 * (2 * rng.range(1, 50) + 1), rng.range(0, 999), 1_000_003, *rng.pick(&[0i64, -500_000]), n), // scrambled, distinct
+        5 => {
+            let m = *rng.pick(&[17i64, 257, 1031]);
+            (48271, rng.range(0, 99), m, *rng.pick(&[0i64, -100]), m)     // scrambled, many ties
+        }
+        _ => (1_000_003, 12345, (1 << 31) - 1, *rng.pick(&[0i64, -(1 << 30)]), n), // large magnitudes
+    }
+}
+
+fn big_k(rng: &mut SplitMix64, n: i64) -> i64 {
+    match rng.below(8) {
+        0 => *rng.pick(&[0i64, 1, 2]),
+        1 => *rng.pick(&[7i64, 8, 9, 15, 16, 17]),
+        2 => *rng.pick(&[31i64, 32, 33, 63, 64, 65]),
+        3 => *rng.pick(&[100i64, 127, 128, 129, 255, 256, 257]),
+        4 => n / 2,
+        5 => (n - 1).max(0),
+        6 => n,
+        _ => n + 1,
+    }
+}
+
+fn big_cases(seed: u64, tier: Tier, queue: &mut Vec<(&'static str, Value, bool, Vec<&'static str>)>) {
+    let mut rng = SplitMix64::new(seed ^ 0xB16_C06);
+    let (sizes, huge) = big_sizes(tier);
+    let mut all: Vec<(i64, bool)> = sizes.iter().map(|n| (*n, false)).collect();
+    all.extend(huge.iter().map(|n| (*n, true)));
+    // a few seeded sizes as well
+    for _ in 0..(if tier == Tier::Thorough { 60 } else { 12 }) {
+        all.push((rng.range(2, 5200), false));
+    }
+    let budget: i64 = 12_000_000; // model steps per case (n * distinct values, n * k)
+    for (n, is_huge) in all {
+        for cid in 0..9i64 {
+            let nshapes = if is_huge { 3 } else if tier == Tier::Thorough { 8 } else { 5 };
+            for shape_ix in 0..nshapes {
+                // shapes 0, 1, 2 always: the two entry styles alone, and a lifted split
+                let shape = if shape_ix < 3 { shape_ix } else { 3 + rng.below(9) };
+                let cap = if is_huge { 2_000_000 } else { budget };
+                // value pattern within the model budget of the set / heap based combiners
+                let mut pat = rng.below(7);
+                let (mut a, mut b, mut m, mut off, mut dist) = big_pattern(&mut rng, n, pat);
+                let mut k = if cid == 8 { *rng.pick(&[0i64, 4, 5, 16, 64, 256, 1024]) } else if cid == 7 { big_k(&mut rng, n) } else { 0 };
+                if matches!(cid, 5 | 6 | 8) && n * dist.min(n) > cap {
+                    pat = *rng.pick(&[2u64, 3, 5]);
+                    (a, b, m, off, dist) = big_pattern(&mut rng, n, pat);
+                    if n * dist.min(n) > cap {
+                        (a, b, m, off, dist) = big_pattern(&mut rng, n, 3);
+                    }
+                }
+                let _ = (dist, pat);
+                if cid == 7 && n * k.min(n) > cap {
+                    k = *rng.pick(&[0i64, 1, 7, 8, 9, 16]);
+                }
+                if cid == 8 && n * k.max(4).min(n) > cap {
+                    k = 4;
+                }
+                // element type: mostly i64; u64 needs values >= 0, i32 needs sum |v| < 2^31
+                let vals_abs_max = (m - 1 + off).abs().max(off.abs());
+                let mut ty = if cid == 8 { 0 } else { *rng.pick(&[0i64, 0, 0, 1, 2]) };
+                if ty == 1 && (off < 0 || (cid == 4 && vals_abs_max >= (1 << 32))) {
+                    ty = 0;
+                }
+                if ty == 2 && (vals_abs_max as i128) * (n.max(1) as i128) >= (1 << 31) {
+                    ty = 0;
+                }
+                let den = if cid == 4 && ty == 0 && n <= 64 { *rng.pick(&[1i64, 2, 4]) } else { 1 };
+                let g = |start: i64, len: i64| json!([start, len, a, b, m, off]);
+                let c = match rng.below(4) {
+                    0 => n / 3,
+                    1 => 1.min(n),
+                    2 => (n - 1).max(0),
+                    _ => rng.range(0, n),
+                };
+                let e = match shape {
+                    0 => json!([5, g(0, n)]),
+                    1 => json!([6, g(0, n)]),
+                    2 => json!([2, [5, g(0, c)], [5, g(c, n - c)]]),
+                    3 => json!([2, [6, g(0, c)], [5, g(c, n - c)]]),
+                    4 => json!([2, [5, g(0, c)], [6, g(c, n - c)]]),
+                    5 => json!([2, [6, g(0, c)], [6, g(c, n - c)]]),
+                    6 => {
+                        // inputs added after a big build
+                        let t = 3.min(n);
+                        let vs = gen_vals(&g(n - t, t));
+                        let mut e = json!([5, g(0, n - t)]);
+                        for v in vs {
+                            e = json!([1, e, v]);
+                        }
+                        e
+                    }
+                    7 => json!([2, [0], [2, [5, g(0, n)], [0]]]),
+                    8 => json!([2, [2, [3, []], [6, g(0, c)]], [2, [0], [5, g(c, n - c)]]]),
+                    _ => {
+                        // many parts
+                        let psize = match rng.below(6) {
+                            0 => 1,
+                            1 => *rng.pick(&[2i64, 3, 7, 8, 9]),
+                            2 => *rng.pick(&[63i64, 64, 65, 100]),
+                            3 => n / 2 + 1,
+                            4 => (n / 16).max(1),
+                            _ => rng.range(1, n.max(1)),
+                        };
+                        // at most ~1100 parts, keeps the TopK / set merges affordable
+                        let psize = if is_huge { psize.max(n / 64) } else { psize.max(n / 1100 + 1) };
+                        json!([7, g(0, n), psize, rng.below(3), rng.below(3)])
+                    }
+                };
+                let mut tags = vec!["big"];
+                if is_huge {
+                    tags.push("huge");
+                }
+                queue.push(("big", json!([cid, k, den, ty, e]), n >= 2, tags));
+            }
+        }
     }
 }
 
